@@ -55,12 +55,12 @@ def _spec_hash():
     return h
 
 
-def enumerate_language(params, cache=True, simulate=None, timeout=3600):
+def enumerate_language(params, cache=True, simulate=None, timeout=3600, seed=0):
     """Returns (sentences, tlc_result).  sentences: list of {'toks': [...], 'ast': {...}}."""
     cfg = make_cfg(params)
     h = _spec_hash()
     h.update(cfg.encode())
-    h.update(repr(simulate).encode())
+    h.update(repr((simulate, seed)).encode())
     key = h.hexdigest()[:20]
     cdir = os.path.join(tlc.BUILD, 'lang')
     os.makedirs(cdir, exist_ok=True)
@@ -69,7 +69,8 @@ def enumerate_language(params, cache=True, simulate=None, timeout=3600):
         with open(cpath) as f:
             d = json.load(f)
         return d['sentences'], d['res']
-    res = tlc.run_model('MC_Grammar', cfg_text=cfg, workers=1, timeout=timeout, simulate=simulate)
+    res = tlc.run_model('MC_Grammar', cfg_text=cfg, workers=1, timeout=timeout, simulate=simulate,
+                        extra=(['-depth', '400', '-seed', str(seed)] if simulate else None))
     if not res['ok']:
         raise tlc.MachineryError('grammar machine failed:\n' + res['out'][-3000:])
     sents = []
@@ -92,14 +93,16 @@ def enumerate_shapes(family, cache=True, timeout=3600):
     return enumerate_family(family, cache=cache, timeout=timeout, module='MC_Shapes', spec='SSpec', const='ShapeFamily')
 
 
-def enumerate_family(family, cache=True, timeout=3600, module='MC_TypedGen', spec='TSpec', const='Family'):
-    """All members of a typed family of spec/HplTypedGen.tla: list of {'toks','ast'}."""
-    params = {'Family': family if const == 'Family' else 'none'}
+def enumerate_family(family, cache=True, timeout=3600, module='MC_TypedGen', spec='TSpec', const='Family', rand=None):
+    """All members of a typed family of spec/HplTypedGen.tla: list of {'toks','ast'}.
+    rand=(n, depth, seed): the random family (TLC RandomElement, reproducible through -seed)."""
+    params = {'Family': family if const == 'Family' else 'none', 'RandN': rand[0] if rand else 1, 'RandDepth': rand[1] if rand else 1}
     if const != 'Family':
         params[const] = family
     cfg = make_cfg(params, spec=spec)
     h = _spec_hash()
     h.update(cfg.encode())
+    h.update(repr(rand).encode())
     key = 'fam-' + module + '-' + family + '-' + h.hexdigest()[:16]
     cdir = os.path.join(tlc.BUILD, 'lang')
     os.makedirs(cdir, exist_ok=True)
@@ -108,7 +111,7 @@ def enumerate_family(family, cache=True, timeout=3600, module='MC_TypedGen', spe
         with open(cpath) as f:
             d = json.load(f)
         return d['sentences'], d['res']
-    res = tlc.run_model(module, cfg_text=cfg, workers=1, timeout=timeout)
+    res = tlc.run_model(module, cfg_text=cfg, workers=1, timeout=timeout, extra=(['-seed', str(rand[2])] if rand else None))
     if not res['ok']:
         raise tlc.MachineryError('typed generator failed:\n' + res['out'][-3000:])
     sents, seen = [], set()
